@@ -7,7 +7,7 @@ THEOREMS = ["Props.C13.c13_advance", "Props.C13.c13_last_blank", "Props.C13.c13_
             "Props.RunTie.consider_line_source_is_model", "Props.RunTie.advance_source",
             "Props.MatchTie.matches_source_is_model", "Props.MatchTie.c13_stop_cut_source", "Props.MatchTie.c13_skip_cut_source",
             "Props.ControlTie.stop_source_is_model", "Props.ControlTie.skip_source_is_model", "Props.ControlTie.c13_stop_cond_source",
-            "Props.ControlTie.interp_stop_is_instance",
+            "Props.ControlTie.interp_stop_is_instance", "Props.ControlTie.interp_skip_is_instance",
             "Props.LastTie.last_source_is_model", "Props.LastTie.c13_last_source", "Props.LastTie.interp_last"]
 
 
